@@ -85,7 +85,7 @@ inductive Seq | header | block | index | ended
     `loopTop` = top of the `while (true)` of SEQ_BLOCK (about to lock coder->mutex and read the queue); `encIn` = loop head of
     stream_encode_in(); `afterIn` = after stream_encode_in() returned LZMA_OK; `waiting` = inside the cond wait of
     wait_for_work(); `tailOut` = SEQ_INDEX/SEQ_STREAM_FOOTER; `failed` = lzma_code returned an error (ISEQ_ERROR);
-    `ending` = threads_end(): THR_EXIT sent, joining; `dead` = after lzma_end. -/
+    `ending` = inside threads_end() (sending THR_EXIT to each worker, then joining); `dead` = after lzma_end. -/
 inductive MPc | out | hdrOut | loopTop | encIn | afterIn | waiting | tailOut | failed | ending | dead
   deriving DecidableEq, Repr, Inhabited
 
@@ -129,7 +129,7 @@ structure St where
   out : Bytes := []              -- everything written to the application's output buffers in this Stream
   done : List Blk := []          -- Blocks completely delivered, in delivery order
   consumed : Bytes := []         -- all input accepted in this Stream
-  flushPts : List Nat := []      -- input offsets at which the application asked for FULL_FLUSH/FULL_BARRIER/FINISH
+  flushPts : List Nat := []      -- input offsets at which a FULL_FLUSH/FULL_BARRIER/FINISH request took effect (all its input consumed)
   nblk : Nat := 0                -- Blocks started
   lastRet : Option (Action × Ret) := none
   lastUpd : Option Ret := none
@@ -145,7 +145,7 @@ inductive Ev
   | mWake | mTimeout | mSpurious
   | update (chain : Nat)                              -- lzma_filters_update
   | reinit (c : Cfg) | lzmaEnd                        -- lzma_stream_encoder_mt on the same handle / lzma_end
-  | mJoin
+  | mExitOne (i : Nat) | mExitIdle | mJoin
   | wTop (i : Nat) | wEnc (i : Nat) (full : Bool) (newOut : Nat) | wEncErr (i : Nat) (r : Ret) | wFb (i : Nat)
   | wMarkIdle (i : Nat) | wTail (i : Nat) | wSpurious (i : Nat) | wExitIdle
   deriving Repr, Inhabited
@@ -200,8 +200,7 @@ def progress (s : St) : Nat × Nat :=
 
 def mCall (s : St) (inp : Bytes) (cap : Nat) (act : Action) : Option St :=
   if s.mpc = .out ∧ s.seq ≠ .ended then
-    let s1 := { s with inp := inp, cap := cap, act := act, hasBlocked := false,
-                       flushPts := if act = Action.run then s.flushPts else s.flushPts ++ [s.consumed.length + inp.length] }
+    let s1 := { s with inp := inp, cap := cap, act := act, hasBlocked := false, lastRet := none }
     some { s1 with mpc := (match s.seq with | .header => MPc.hdrOut | .block => MPc.loopTop | _ => MPc.tailOut) }
   else none
 
@@ -257,8 +256,10 @@ def mEncIn (s : St) : Option St :=
       | some e =>
         let k := min s.inp.length (s.cfg.bs - e.data.length)
         let data' := e.data ++ s.inp.take k
-        let s1 := { s with inp := s.inp.drop k, consumed := s.consumed ++ s.inp.take k }
-        let finish : Bool := data'.length = s.cfg.bs || (s1.inp.isEmpty && s.act ≠ .run)
+        let flush : Bool := (s.inp.drop k).isEmpty && s.act ≠ .run
+        let s1 := { s with inp := s.inp.drop k, consumed := s.consumed ++ s.inp.take k,
+                           flushPts := if flush then s.flushPts ++ [s.consumed.length + k] else s.flushPts }
+        let finish : Bool := data'.length = s.cfg.bs || flush
         match e.wk with
         | none => some (ret s1 (s.err.getD PROG_ERROR))       -- block_error: the worker has gone idle
         | some w =>
@@ -272,13 +273,16 @@ def mEncIn (s : St) : Option St :=
 def mGetThreadErr (s : St) (r : Ret) : Option St :=
   if s.mpc = .encIn ∧ ¬s.thr ∧ ¬s.inp.isEmpty ∧ r ≠ OK ∧ r ≠ END ∧ r ≠ TIMED_OUT then some (ret s r) else none
 
+/-- ghost: the encoder has honoured a FULL_FLUSH/FULL_BARRIER/FINISH request at the current input offset. -/
+def noteFlush (s : St) : St := { s with flushPts := s.flushPts ++ [s.consumed.length] }
+
 def mAfterIn (P : Params) (s : St) : Option St :=
   if s.mpc = .afterIn then
     if s.inp.isEmpty ∧ s.act = .run then some (ret s OK)
-    else if s.inp.isEmpty ∧ s.act = .fullBarrier then some (ret s END)
+    else if s.inp.isEmpty ∧ s.act = .fullBarrier then some (ret (noteFlush s) END)
     else if s.inp.isEmpty ∧ s.outq.isEmpty ∧ s.act = .finish then
-      some { s with seq := .index, tailPos := 0, progOut := s.progOut + (P.tailBytes s.index).length, mpc := .tailOut }
-    else if s.inp.isEmpty ∧ s.outq.isEmpty ∧ s.act = .fullFlush then some (ret s END)
+      some { noteFlush s with seq := .index, tailPos := 0, progOut := s.progOut + (P.tailBytes s.index).length, mpc := .tailOut }
+    else if s.inp.isEmpty ∧ s.outq.isEmpty ∧ s.act = .fullFlush then some (ret (noteFlush s) END)
     else if s.cap = 0 then some (ret s OK)
     else some { s with mpc := .waiting, hasBlocked := true, mWoken := true }   -- mWoken: the condition must be (re)evaluated
   else none
@@ -310,17 +314,28 @@ def mUpdate (s : St) (chain : Nat) : Option St :=
     else some { s with cfg := { s.cfg with chain := chain }, lastUpd := some OK }
   else none
 
-/-- threads_end(), first half: THR_EXIT + signal to every initialised worker. -/
-def exitAll (s : St) : St :=
-  { s with outq := mapWorkers (fun w => { w with state := .exit, woken := true }) s.outq,
-           exiting := s.exiting + s.idle, idle := 0 }
-
+/-- lzma_end() / lzma_stream_encoder_mt() on a used handle: enter threads_end(). -/
 def mEnd (s : St) (pending : Option Cfg) : Option St :=
-  if s.mpc = .out ∨ s.mpc = .failed then some { exitAll s with mpc := .ending, pending := pending } else none
+  if s.mpc = .out ∨ s.mpc = .failed then some { s with mpc := .ending, pending := pending } else none
 
-/-- threads_end(), second half (all joins succeeded) + the rest of stream_encoder_mt_end / stream_encoder_mt_init. -/
+/-- threads_end(), first loop, for a worker that is attached to a queue entry: THR_EXIT + signal under its mutex. -/
+def mExitOne (s : St) (i : Nat) : Option St :=
+  if s.mpc = .ending then
+    match s.outq[i]? with
+    | none => none
+    | some e =>
+      match e.wk with
+      | none => none
+      | some w => if w.state ≠ .exit then some { s with outq := s.outq.set i { e with wk := some { w with state := .exit, woken := true } } } else none
+  else none
+
+/-- threads_end(), first loop, for a worker that sits in threads_free. -/
+def mExitIdle (s : St) : Option St :=
+  if s.mpc = .ending ∧ s.idle > 0 then some { s with idle := s.idle - 1, exiting := s.exiting + 1 } else none
+
+/-- threads_end(), second loop (all joins succeeded) + the rest of stream_encoder_mt_end / stream_encoder_mt_init. -/
 def mJoin (P : Params) (s : St) : Option St :=
-  if s.mpc = .ending ∧ s.exiting = 0 ∧ busy s.outq = 0 then
+  if s.mpc = .ending ∧ s.idle = 0 ∧ s.exiting = 0 ∧ busy s.outq = 0 then
     match s.pending with
     | none => some { (initSt s.cfg P) with mpc := .dead }
     | some c => some (initSt c P)
@@ -471,8 +486,10 @@ def step (P : Params) (s : St) : Ev → Option St
   | .mTimeout => mTimeout s
   | .mSpurious => mSpurious s
   | .update c => mUpdate s c
-  | .reinit c => mEnd s (some c)
+  | .reinit c => if 0 < c.bs ∧ 0 < c.tmax then mEnd s (some c) else none      -- get_options() rejects anything else
   | .lzmaEnd => mEnd s none
+  | .mExitOne i => mExitOne s i
+  | .mExitIdle => mExitIdle s
   | .mJoin => mJoin P s
   | .wTop i => wTop s i
   | .wEnc i full newOut => wEnc P s i full newOut
